@@ -230,6 +230,10 @@ pub struct WasmGenerator {
     /// Registers produced by GetElement instructions, mapped to the element's ValType.
     /// These registers hold pointers to elements but are often used as values in the MIR.
     getelement_registers: HashMap<mir::VReg, wasm_encoder::ValType>,
+    /// GetElement registers whose element is a scalar cell (number, int, function handle): a closure
+    /// that captures such a register (a variable bound by a tuple/record pattern) must go through the
+    /// element's address, like the capture of a single-word alloc cell.
+    getelement_capture_indirect: HashMap<mir::VReg, bool>,
     /// Maps MIR function index to its WASM type section index
     fn_type_indices: Vec<u32>,
     /// Adapter function index per MIR function for indirect calls via table.
@@ -408,6 +412,7 @@ impl WasmGenerator {
             plugin_fns: PluginFunctionIndices::default(),
             alloc_registers: HashMap::new(),
             alloc_register_indirect: HashMap::new(),
+            getelement_capture_indirect: HashMap::new(),
             getelement_registers: HashMap::new(),
             fn_type_indices: Vec::new(),
             indirect_adapter_fn_indices: Vec::new(),
@@ -2055,6 +2060,21 @@ impl WasmGenerator {
                                 element_vtype
                             } else {
                                 self.getelement_registers.insert(*reg_idx, element_vtype);
+                                let element_ty = match &composite_ty {
+                                    Type::Tuple(elems) => {
+                                        elems.get(*tuple_offset as usize).map(|t| t.to_type())
+                                    }
+                                    Type::Record(fields) => fields
+                                        .get(*tuple_offset as usize)
+                                        .map(|f| f.ty.to_type()),
+                                    _ => None,
+                                };
+                                self.getelement_capture_indirect.insert(
+                                    *reg_idx,
+                                    element_ty
+                                        .map(|t| Self::alloc_capture_should_be_indirect(&t))
+                                        .unwrap_or(false),
+                                );
                                 ValType::I64
                             }
                         }
@@ -2763,6 +2783,19 @@ impl WasmGenerator {
                     func.instruction(&W::I32Const(upval_byte_offset as i32));
                     func.instruction(&W::I32Add);
                     match upindex.as_ref() {
+                        mir::Value::Register(reg_idx)
+                            if self
+                                .getelement_capture_indirect
+                                .get(reg_idx)
+                                .copied()
+                                .unwrap_or(false) =>
+                        {
+                            // Variable bound by a tuple/record pattern: the register holds the
+                            // ADDRESS of a scalar element. Store that address and let
+                            // GetUpValue/SetUpValue go through it, as for a single-word alloc.
+                            is_indirect[i] = true;
+                            self.emit_value_load(upindex, func);
+                        }
                         mir::Value::Register(reg_idx)
                             if self
                                 .alloc_register_indirect
